@@ -90,7 +90,7 @@ Width(i)      == IF i.fam = "bits" THEN i.nvec[1] ELSE SumTo(i.nvec, Len(i.nvec)
 PW(i, c, x)   == IF i.fam = "bits" THEN (IF x = 1 THEN i.p[c] ELSE PDen - i.p[c]) ELSE i.p[Off(i, c) + x + 1]
 MK(i, c, x)   == IF i.fam = "bits" THEN (IF x = 1 THEN i.m[c] ELSE 1) ELSE i.m[Off(i, c) + x + 1]
 Outcomes(i, c) == 0..(Size(i, c) - 1)
-AllActs(i)    == { a \in [1..NComp(i) -> 0..3] : \A c \in 1..NComp(i) : a[c] \in Outcomes(i, c) }
+AllActs(i)    == { a \in [1..NComp(i) -> 0..4] : \A c \in 1..NComp(i) : a[c] \in Outcomes(i, c) }
 
 ---------------------------------------------------------------------------
 (* The property's definition, on the input                                 *)
